@@ -132,15 +132,15 @@ class Interp:
             self._head_state = ps[0].st
         return self._head_state
     # ---------------------------------------------------------------- one loop iteration
-    def make_pre(self, opc=None, tag=''):
+    def make_pre(self, opc=None, tag='', fields=None, regs=None, pc=None):
         """fresh symbolic loop-head state; returns (State, PreState-with-fields)"""
         S = self.S; eng = self.eng
         st = self.head_state().fork(); fr = st.frames[0]
         eng.memo.clear()          # summaries depend on the named instruction bytes of this pre-state
         st.pc = list(self._base()); st.log = []; st.events = []; st.visits = {}
         P = PreState(); P.__dict__.update(S.__dict__)
-        P.regs = [B64(f'r{i}{tag}') for i in range(11)]
-        P.pc = B64('pc' + tag); P.sfi = B64('sfi' + tag)
+        P.regs = list(regs) if regs is not None else [B64(f'r{i}{tag}') for i in range(11)]
+        P.pc = B64('pc' + tag) if pc is None else BitVecVal(pc, 64); P.sfi = B64('sfi' + tag)
         frames_v = eng.fresh_of_type('[StackFrame; 8]', 'fr' + tag)
         P.frames = []
         for a in frames_v.f:
@@ -155,9 +155,11 @@ class Interp:
         fr.locals[self.names['stacks']] = frames_v
         # instruction fields at pc (and the following slot) are named bytes of an otherwise arbitrary memory
         P.opc = BitVecVal(opc, 8) if opc is not None else BitVec('opc' + tag, 8)
-        P.regbyte = BitVec('regbyte' + tag, 8); P.off = BitVec('off' + tag, 16); P.imm = BitVec('imm' + tag, 32)
-        P.nopc = BitVec('nopc' + tag, 8); P.nregbyte = BitVec('nregbyte' + tag, 8); P.noff = BitVec('noff' + tag, 16)
-        P.next_imm = BitVec('next_imm' + tag, 32)
+        fields = fields or {}
+        def fld(name, w): return BitVecVal(fields[name], w) if name in fields else BitVec(name + tag, w)
+        P.regbyte = fld('regbyte', 8); P.off = fld('off', 16); P.imm = fld('imm', 32)
+        P.nopc = fld('nopc', 8); P.nregbyte = fld('nregbyte', 8); P.noff = fld('noff', 16)
+        P.next_imm = fld('next_imm', 32)
         a0 = S.prog_base + 8 * P.pc
         fields = [P.opc, P.regbyte, P.off, P.imm, P.nopc, P.nregbyte, P.noff, P.next_imm]
         bts = []
@@ -168,7 +170,7 @@ class Interp:
         st.pc += [Select(S.M0, a0 + i) == b for i, b in enumerate(bts)]
         st.aux['overlay'] = mirsym.Engine.make_overlay(a0, bts)
         P.M = S.M0; st.mem = S.M0
-        P.dst = ZeroExt(60, Extract(3, 0, P.regbyte)); P.src = ZeroExt(60, Extract(7, 4, P.regbyte))
+        P.dst = simplify(ZeroExt(60, Extract(3, 0, P.regbyte))); P.src = simplify(ZeroExt(60, Extract(7, 4, P.regbyte)))
         P.n = simplify(P.prog_len / 8) if False else None
         # loop-head invariant: pc within the 1,000,000-instruction limit, frame index 0..8
         st.pc += [ULT(P.pc, 1000000), ULE(P.sfi, 8)]
